@@ -233,11 +233,25 @@ static int ccstub(int argc, char **argv, const char *base) {
     int rc = 0;
     if (out) rc |= create_file(out, "cc");
     if (mf) {
-        /* an empty (valid) depfile naming nothing: header tracking is
-         * the real compilers' business (C07) */
+        /* a depfile as gcc writes it, naming just the source (header tracking is the
+         * real compilers' business, C07): "out: src" with gcc's escaping of ' ', '#', '$' */
         mkparents(mf);
-        int fd = open(mf, O_WRONLY | O_CREAT | O_TRUNC, 0644);
-        if (fd >= 0) close(fd); else rc = 1;
+        FILE *df = fopen(mf, "w");
+        if (df) {
+            if (out && ins.n && getenv("VSTUB_REAL_DEPFILE")) {
+                const char *parts[2] = {out, ins.p};
+                size_t lens[2] = {strlen(out), ins.n};     /* ins is not NUL-terminated */
+                for (int k = 0; k < 2; k++) {
+                    for (const char *c = parts[k]; c < parts[k] + lens[k]; c++) {
+                        if (*c == ' ' || *c == '#' || *c == '\t') fputc('\\', df);
+                        if (*c == '$') fputc('$', df);
+                        fputc(*c, df);
+                    }
+                    fputs(k == 0 ? ": " : "\n", df);
+                }
+            }
+            fclose(df);
+        } else rc = 1;
     }
     free(ins.p);
     return rc ? 1 : exit_status();
